@@ -141,6 +141,51 @@ async def run_case(chk, rng, lines, impl, qa):
     await a.finish()
 
 
+async def parsed_route(chk, rng, count):
+    """through the real Session (parse + middlewares): the string literals of the expression handed to the application's
+    query() are the bound values — whatever sql_mode / character-set statements the session executed before (the binder's
+    literal syntax and the parser's must agree in every session state)"""
+    from lib import RecSession
+    from sqlglot import exp
+    modes = ["NO_BACKSLASH_ESCAPES", "ANSI_QUOTES", "ANSI", "TRADITIONAL", "PIPES_AS_CONCAT,NO_BACKSLASH_ESCAPES", "", "HIGH_NOT_PRECEDENCE"]
+    for i in range(count):
+        seen = []
+
+        def beh(sess, e, sql, attrs):
+            seen.append(e)
+            return [(1,)], ["a"]
+        s = RecSession(beh)
+        srv = mkserver([s])
+        a = Peer(srv)
+        await a.login()
+        pre = []
+        if rng.random() < 0.7:
+            pre.append("SET SESSION sql_mode = '%s'" % rng.choice(modes))
+        if rng.random() < 0.2:
+            pre.append("SET NAMES utf8mb4")
+        for st in pre:
+            await a.cmd(b"\x03" + st.encode())
+        n = rng.choice([1, 2, 3])
+        template = "SELECT " + ", ".join(["?"] * n) + " FROM x"
+        out = await a.cmd(b"\x16" + template.encode())
+        sid = struct.unpack_from("<I", out[0][1], 1)[0]
+        vals = [gen_string(rng) for _ in range(n)]
+        vals = [v for v in vals]
+        params = [(253, False, v.encode("utf8"), b"") for v in vals]
+        seen.clear()
+        rep = await a.cmd(com_stmt_execute(sid, params), n=50)
+        await a.finish()
+        chk.count("parsed-route:" + (pre[0].split("=")[-1].strip() if pre else "default"))
+        chk.case(("parsed", tuple(pre), tuple(vals)))
+        desc = dict(session_statements_before=pre, template=template, values=[repr(v) for v in vals])
+        if len(seen) != 1:
+            chk.fail("execute did not reach the application's query() exactly once", desc, dict(reply=[p[:40].hex() for _, p in rep][:2]))
+            continue
+        lits = [l.this for l in seen[0].find_all(exp.Literal) if l.is_string]
+        if lits != vals:
+            chk.fail("the literals of the expression the application receives are not the bound values", desc, dict(literals=[repr(x) for x in lits]))
+
+
 def main():
     chk = Check("C06", sys.argv[1:])
     chk.rule = ("templates from the grammar (text | ? | '?' | \"?\" | `?` | other quoted runs)*, parameter tuples over an adversarial "
@@ -158,6 +203,7 @@ def main():
     async def go():
         for k in range(500 if not chk.thorough else 60000):
             await run_case(chk, rng, lines, impl, qa=(k % 3 == 0))
+        await parsed_route(chk, rng, 120 if not chk.thorough else 6000)
 
     asyncio.run(go())
     model = drive(lines)
